@@ -8,7 +8,8 @@ response body x content-type (charset) x content-encoding) is built as a real HT
 exported with the real SaveHar.make_har, serialised like SaveHar.export_har does, read back
 with the real FlowReader (HAR branch -> har.request_to_flow) and compared field by field.
 A case is the set of grammar dimensions that deviate from the base flow: quick = all cases
-with <= 2 deviations, thorough = <= 3 deviations, plus the full product of the two body groups.
+with <= 2 deviations, thorough = <= 3 deviations, plus the full product of the two body groups
+(thorough: each such product additionally combined with every single other deviation).
 Multi-flow files: every ordered selection of 1..3 flows from a pool (incl. a non-HTTP flow
 and two flows sharing a server connection) written with export_har to a scratch file and read
 with read_flows_from_paths.
@@ -547,10 +548,22 @@ def canon(spec):
     return {k: v for k, v in spec.items() if BASE[k] != v}
 
 
-def all_specs(k):
+def products_plus_one():
+    """thorough only: every body-group product combined with every single deviation of any other dimension"""
+    for p in products():
+        for d in DIMS:
+            if d in p:
+                continue
+            for v in DIMS[d][1:]:
+                q = dict(p)
+                q[d] = v
+                yield q
+
+
+def all_specs(k, plus_one=False):
     seen = set()
     out = []
-    for spec in itertools.chain(deviations(k), products()):
+    for spec in itertools.chain(deviations(k), products(), products_plus_one() if plus_one else ()):
         spec = canon(spec)
         key = json.dumps(spec, sort_keys=True)
         if key not in seen:
@@ -562,27 +575,40 @@ def all_specs(k):
 def run(ctx):
     k = ctx.pick(2, 3)
     maxfile = 3
-    specs = all_specs(k)
-    files = [list(s) for n in range(1, maxfile + 1) for s in itertools.product(range(len(POOL)), repeat=n)]
+    specs = all_specs(k, plus_one=ctx.thorough)
+    files =[list(s) for n in range(1, maxfile + 1) for s in itertools.product(range(len(POOL)), repeat=n)]
     if not ctx.thorough:
-        # quick: files of 3 only from the first 5 pool entries plus the two special ones in first position
+        # quick: in files of 3 the second and third flow come from the first 5 pool entries only
         files = [s for s in files if len(s) < 3 or all(i < 5 for i in s[1:])]
     ctx.bounds = {
         "max_simultaneous_deviations": k,
         "dimensions": {d: [str(x) for x in v] for d, v in DIMS.items()},
-        "body_group_products": "resp_body x resp_ctype x resp_ce x {HTTP/1.1, HTTP/2.0}; {POST,PUT,PATCH} x req_body x req_ctype x req_ce",
-        "files": "ordered selections of 1..%d flows from a pool of %d" % (maxfile, len(POOL)),
+        "body_group_products": "resp_body x resp_ctype x resp_ce x {HTTP/1.1, HTTP/2.0}; {POST,PUT,PATCH} x req_body x req_ctype x req_ce"
+        + ("; each product also combined with every single deviation of every other dimension" if ctx.thorough else ""),
+        "files": "ordered selections of 1..%d flows from a pool of %d%s" % (
+            maxfile, len(POOL), "" if ctx.thorough else " (files of 3: positions 2,3 from the first 5 pool entries)"),
         "n_flow_cases": len(specs),
         "n_files": len(files),
     }
     ctx.log("%d flow cases (<=%d deviations + body products), %d files" % (len(specs), k, len(files)))
-    par.pmap_tally(chunk_cases, specs, ctx.tally)
-    ctx.log("flow cases done: %d evaluations, %d outcomes" % (ctx.tally.evaluations, len(ctx.tally.outcomes)))
+    # one pool invocation for both kinds of case (a fork per worker is the dominant fixed cost on a loaded machine)
+    items = [("flow", s) for s in specs] + [("file", s) for s in files]
     scratch_dir()
     try:
-        par.pmap_tally(chunk_files, files, ctx.tally)
+        par.pmap_tally(chunk_mixed, items, ctx.tally)
     finally:
         drop_scratch()
+    ctx.log("done: %d evaluations, %d distinct outcomes" % (ctx.tally.evaluations, len(ctx.tally.outcomes)))
+
+
+def chunk_mixed(chunk):
+    t = Tally()
+    for kind, item in chunk:
+        if kind == "flow":
+            one_case(item, t)
+        else:
+            one_file(item, t)
+    return t
 
 
 def replay(case, t: Tally, verbose=False):
